@@ -62,6 +62,13 @@ T = {
     "C20-a": ("C20", "C20.R2|one-lock", "before",
               "DashMap::get_mut of a present key racing with a removal scheduled between get_mut's read-lock lookup and its write-lock acquisition",
               "cargo test --offline -p shuttle-dashmap-impl --test seed_demo"),
+    "C16-a": ("C16", "C16.R4|reader-accepts-every-writer-width", "before (idiom not recognised), after (interval rule)",
+              "a schedule containing a task id with the most significant bit of usize set (id >= 2^63): the writer uses 64 bits per id, the reader's half-open range rejects width 64",
+              "cargo test --offline -p shuttle --test seed_demo"),
+    "C19-a": ("C19", "C19.R7|notify_waiters-marks-all-before-first-wake", "after",
+              ">= 2 Notified futures registered when notify_waiters() runs; the task owning a later one is scheduled inside the oneshot send to an earlier one and drops (or polls with a "
+              "stored permit) its Notified: remove_waiter panics in a correct tokio program",
+              "cargo test --offline -p shuttle-tokio-impl-inner --test seed_demo  (seed_demo.rs copied to wrappers/tokio/impls/tokio/inner/tests/)"),
     "C17-a": ("C17", "C17.R2|wake-sets-woken", "before",
               "a waker invoked (or abort called) while the task is Blocked inside its poll on a blocking primitive (mpsc recv, Condvar, Barrier, join, park): the wake is forgotten and the task sleeps forever",
               "cd demo && cargo test --offline"),
